@@ -18,20 +18,22 @@ VARIABLES phase,     \* "none" | "creating" | "created" | "down" (shutdown calle
           joined,    \* workers successfully joined
           ptid0,     \* workers that cleared their own pt_id
           shut,      \* value of tp->shutdown
-          tcfail     \* a pthread_create failed inside the current tp_threads_create call
-lVars == <<phase, hstart, hstop, made, exited, joined, ptid0, shut, tcfail>>
+          tcfail,    \* a pthread_create failed inside the current tp_threads_create call
+          attached,  \* workers whose body runs on a borrowed thread (tp_thread_attach_first): never joined
+          strag      \* threads of EARLIER pools of this process that were never joined (they may still be running)
+lVars == <<phase, hstart, hstop, made, exited, joined, ptid0, shut, tcfail, attached, strag>>
 
 InitLife == /\ phase = "none" /\ hstart = [t \in Threads |-> 0] /\ hstop = [t \in Threads |-> 0]
-            /\ made = {} /\ exited = {} /\ joined = {} /\ ptid0 = {} /\ shut = 0 /\ tcfail = FALSE
+            /\ made = {} /\ exited = {} /\ joined = {} /\ ptid0 = {} /\ shut = 0 /\ tcfail = FALSE /\ attached = {} /\ strag = 0
 Dev(name) == PrintT(<<"DEVIATION", name>>)
 
 CallCreate == /\ phase = "none" /\ phase' = "creating"
               /\ hstart' = [t \in Threads |-> 0] /\ hstop' = [t \in Threads |-> 0]
-              /\ made' = {} /\ exited' = {} /\ joined' = {} /\ ptid0' = {} /\ shut' = 0 /\ tcfail' = FALSE
+              /\ made' = {} /\ exited' = {} /\ joined' = {} /\ ptid0' = {} /\ shut' = 0 /\ tcfail' = FALSE /\ attached' = {} /\ UNCHANGED strag
 HookStart(a) == /\ phase \in {"creating", "created", "down"}
                 /\ hstart[a] = 0                                  \* (C11) start hook once per thread
                 /\ hstart' = [hstart EXCEPT ![a] = 1]
-                /\ UNCHANGED <<phase, hstop, made, exited, joined, ptid0, shut, tcfail>>
+                /\ UNCHANGED <<phase, hstop, made, exited, joined, ptid0, shut, tcfail, attached, strag>>
 HookStop(a) == /\ phase \in {"creating", "created", "down"}
                /\ \/ hstart[a] = 1 /\ hstop[a] = 0                \* (C11) stop hook once, after the start hook
                   \/ /\ hstart[a] = 0 /\ hstop[a] = 0 /\ a = PVT /\ phase = "creating"
@@ -39,7 +41,7 @@ HookStop(a) == /\ phase \in {"creating", "created", "down"}
                   \/ /\ hstop[a] = 1 /\ a = PVT /\ shut > 1
                      /\ Dev("concurrent-tp_shutdown-runs-pvt-stop-hook-twice")
                /\ hstop' = [hstop EXCEPT ![a] = @ + 1]
-               /\ UNCHANGED <<phase, hstart, made, exited, joined, ptid0, shut, tcfail>>
+               /\ UNCHANGED <<phase, hstart, made, exited, joined, ptid0, shut, tcfail, attached, strag>>
 HooksBalanced == \A t \in Threads : hstart[t] = hstop[t] \/ (t = PVT /\ hstop[t] > hstart[t])  \* deviations already reported
 (* ret.create: rc, and what the ledger still holds *)
 RetCreate(rc, mem, fds, thr) ==
@@ -49,11 +51,15 @@ RetCreate(rc, mem, fds, thr) ==
        ELSE /\ phase' = "none"
             /\ mem = 0 /\ fds = 0 /\ thr = 0                       \* (C11) a failed create leaves nothing behind
             /\ HooksBalanced
-    /\ UNCHANGED <<hstart, hstop, made, exited, joined, ptid0, shut, tcfail>>
+    /\ UNCHANGED <<hstart, hstop, made, exited, joined, ptid0, shut, tcfail, attached, strag>>
 Starting(t)   == /\ phase \in {"created"} /\ made' = made \cup {t}
-                 /\ UNCHANGED <<phase, hstart, hstop, exited, joined, ptid0, shut, tcfail>>
-StartFailed(t) == /\ made' = made \ {t} /\ tcfail' = TRUE /\ UNCHANGED <<phase, hstart, hstop, exited, joined, ptid0, shut>>
-CallTCreate == tcfail' = FALSE /\ UNCHANGED <<phase, hstart, hstop, made, exited, joined, ptid0, shut>>
+                 /\ UNCHANGED <<phase, hstart, hstop, exited, joined, ptid0, shut, tcfail, attached, strag>>
+StartFailed(t) == /\ made' = made \ {t} /\ tcfail' = TRUE /\ UNCHANGED <<phase, hstart, hstop, exited, joined, ptid0, shut, attached, strag>>
+CallTCreate == tcfail' = FALSE /\ UNCHANGED <<phase, hstart, hstop, made, exited, joined, ptid0, shut, attached, strag>>
+(* call.attach_first: the caller lends its own thread to worker 0 *)
+Attach(t) == /\ phase = "created" /\ t \notin made
+             /\ made' = made \cup {t} /\ attached' = attached \cup {t}
+             /\ UNCHANGED <<phase, hstart, hstop, exited, joined, ptid0, shut, tcfail, strag>>
 RetTCreate(rc) == /\ \/ ~tcfail \/ rc # 0                           \* (C11) a failed thread creation is reported
                      \/ tcfail /\ rc = 0 /\ Dev("tp_threads_create-reports-success-although-pthread_create-failed")
                   /\ UNCHANGED lVars
@@ -63,36 +69,44 @@ ProcStep(t, what) ==
          [] what = "proc.exit"  -> exited' = exited \cup {t} /\ UNCHANGED ptid0
          [] OTHER -> UNCHANGED <<exited, ptid0>>
     /\ phase # "none"                                              \* (C11) no pool code runs on a destroyed pool
-    /\ UNCHANGED <<phase, hstart, hstop, made, joined, shut, tcfail>>
+    /\ UNCHANGED <<phase, hstart, hstop, made, joined, shut, tcfail, attached, strag>>
 ShutdownSet(v) == /\ phase \in {"creating", "created", "down"} /\ shut' = v
                   /\ phase' = IF phase = "creating" THEN phase ELSE "down"
-                  /\ UNCHANGED <<hstart, hstop, made, exited, joined, ptid0, tcfail>>
+                  /\ UNCHANGED <<hstart, hstop, made, exited, joined, ptid0, tcfail, attached, strag>>
 Join0 == /\ Dev("tp_shutdown_wait-joins-a-thread-id-the-exiting-thread-already-cleared")
          /\ UNCHANGED lVars
 Joined(t, rc) == /\ joined' = IF rc = 0 THEN joined \cup {t} ELSE joined
-                 /\ UNCHANGED <<phase, hstart, hstop, made, exited, ptid0, shut, tcfail>>
+                 /\ UNCHANGED <<phase, hstart, hstop, made, exited, ptid0, shut, tcfail, attached, strag>>
 DestroyFree == /\ phase \in {"down", "creating"}
-               /\ \/ made \subseteq joined                           \* (C11) every thread was joined before the pool is freed
-                  \/ /\ ~(made \subseteq joined) /\ Dev("tp_destroy-frees-the-pool-with-threads-never-joined")
+               /\ attached \subseteq exited                          \* (C11) a borrowed thread has left the pool
+               /\ \/ (made \ attached) \subseteq joined              \* (C11) every created thread was joined before the pool is freed
+                  \/ /\ ~((made \ attached) \subseteq joined) /\ Dev("tp_destroy-frees-the-pool-with-threads-never-joined")
                /\ phase' = "freeing"
-               /\ UNCHANGED <<hstart, hstop, made, exited, joined, ptid0, shut, tcfail>>
+               /\ UNCHANGED <<hstart, hstop, made, exited, joined, ptid0, shut, tcfail, attached, strag>>
 RetDestroy(rc, mem, fds, thr) ==
     /\ IF rc = 0
        THEN /\ phase = "freeing" /\ phase' = "none"
             /\ mem = 0 /\ fds = 0                                   \* (C11) everything released
-            /\ thr = Cardinality(made \ joined)                     \* unjoined threads were reported at DestroyFree
+            /\ thr = Cardinality((made \ attached) \ joined)        \* unjoined threads were reported at DestroyFree
             /\ \A t \in Workers : t \in made => hstart[t] = 1 /\ hstop[t] = 1   \* (C11) hooks exactly once per started thread
             /\ \A t \in Workers : t \notin made => hstart[t] = 0 /\ hstop[t] = 0
             /\ hstart[PVT] = 1 /\ hstop[PVT] >= 1
        ELSE /\ phase' = phase
-    /\ UNCHANGED <<hstart, hstop, made, exited, joined, ptid0, shut, tcfail>>
+    /\ strag' = IF rc = 0 THEN strag + Cardinality((made \ attached) \ joined) ELSE strag
+    /\ UNCHANGED <<hstart, hstop, made, exited, joined, ptid0, shut, tcfail, attached>>
+(* (C11) destroy / shutdown_wait issued from OUTSIDE the pool must not be refused as "would deadlock" *)
+OutsideNotRefused(p, rc) == p \notin Workers => rc \in {0, EBUSY}
 (* calls that must be refused from a pool thread *)
 RetGuarded(p, rc) == /\ (p \in Workers => rc # 0)                  \* (C11) refused from a pool thread (would deadlock)
+                     /\ OutsideNotRefused(p, rc)
                      /\ UNCHANGED lVars
-Crashed(t) == /\ phase \in {"freeing", "none"} /\ t \in made \ joined
+Crashed(t) == /\ \/ phase \in {"freeing", "none"} /\ t \in (made \ attached) \ joined
+                 \/ strag > 0            \* a never-joined thread of an earlier, already freed pool
               /\ Dev("pool-freed-while-an-unjoined-thread-was-still-inside-tp_thread_proc")
               /\ UNCHANGED lVars
+(* a hang is the known finding only if a shutdown message (NULL user data) really could not be queued *)
 Hung(where) == /\ where = "watchdog" /\ phase = "down"
+               /\ \E i \in DOMAIN inst : inst[i].u = -1 /\ inst[i].st = "wfail"
                /\ Dev("shutdown-message-lost-on-a-full-queue-thread-never-stops")
                /\ UNCHANGED lVars
 PoolAlive == phase \in {"creating", "created", "down"}
